@@ -611,6 +611,94 @@ def do_GC(spec):
     return {"ok": True, "finalizer_runs": len(seen)}
 
 
+# ---- H: the notifier lists are changed by the handlers while a notification is being dispatched
+
+def do_H(spec):
+    """Twin of Driver `handleH`.  kind: `otc` (on_trait_change), `observe`, `raw` (callables put into the lists)."""
+    import traits.api as T
+    kind, tc, oc = spec["kind"], spec["t"], spec["o"]
+    acts = {}
+    nxt = [tc + oc]
+    for w in spec["acts"]:
+        p = w.split(":")
+        if p[1] == "add":
+            acts[int(p[0])] = ("add", nxt[0], p[2] == "t")
+            nxt[0] += 1
+        elif p[1] == "rs":
+            acts[int(p[0])] = ("rm", int(p[0]))
+        else:
+            acts[int(p[0])] = ("rm", int(p[2]))
+
+    class A(T.HasTraits):
+        x = T.Int()
+        y = T.Int()
+    a = A()
+    calls = []
+    funcs = {}
+    where = {}
+
+    def register(k, on_trait):
+        where[k] = on_trait
+        f = funcs[k]
+        if kind == "otc":
+            a.on_trait_change(f, "x" if on_trait else None)
+        elif kind == "observe":
+            a.observe(f, "x" if on_trait else "*")
+        else:
+            (a._trait("x", 2)._notifiers(True) if on_trait else a._notifiers(True)).append(f)
+
+    def unregister(k):
+        if k not in where:
+            return
+        f = funcs[k]
+        on_trait = where.pop(k)
+        try:
+            if kind == "otc":
+                a.on_trait_change(f, "x" if on_trait else None, remove=True)
+            elif kind == "observe":
+                a.observe(f, "x" if on_trait else "*", remove=True)
+            else:
+                (a._trait("x", 2)._notifiers(True) if on_trait else a._notifiers(True)).remove(f)
+        except Exception:
+            pass
+
+    def make(k):
+        def body():
+            calls.append(k)
+            act = acts.get(k)
+            if act is None:
+                return
+            if act[0] == "rm":
+                unregister(act[1])
+            elif act[1] not in funcs:
+                make(act[1])
+                register(act[1], act[2])
+        if kind == "otc":
+            def f():
+                body()
+        elif kind == "observe":
+            def f(event):
+                body()
+        else:
+            def f(obj, name, old, new):
+                if name == "x":
+                    body()
+        funcs[k] = f
+    for k in range(tc + oc):
+        make(k)
+        register(k, k < tc)
+    T.push_exception_handler(handler=lambda *args: None, reraise_exceptions=True)
+    try:
+        a.x = 1
+        first = list(calls)
+        del calls[:]
+        a.x = 2
+        second = list(calls)
+    finally:
+        T.pop_exception_handler()
+    return {"out": "calls=[%s] again=[%s]" % (",".join(map(str, first)), ",".join(map(str, second)))}
+
+
 # ---- PROG: generated API programs (see props/c18lib.py for the generator)
 
 def do_PROG(prog):
@@ -642,6 +730,8 @@ def main():
                 ans = do_PROG(req["prog"])
             elif req["k"] == "GC":
                 ans = do_GC(req["spec"])
+            elif req["k"] == "H":
+                ans = do_H(req["spec"])
             else:
                 ans = {"error": "unknown request"}
         except Exception as e:  # interpreter bug or unexpected behaviour: report, keep serving
